@@ -1,2 +1,39 @@
-(* C10 placeholder *)
-From Rdest Require Import Base Consts Wire Manager Handler.
+(* C10 — block requests tile each assigned piece exactly once. *)
+From Rdest Require Import Base Consts Wire Manager Handler HandlerProofs.
+Open Scope N_scope.
+
+(* PieceRx::left for every piece length: contiguous blocks from 0 to the piece length, each 1..16384 bytes,
+   all but the last exactly 16 KiB (the last is the remainder) *)
+Theorem C10_tiling : forall plen, Tiles 0 plen (left_blocks plen).
+Proof. exact left_blocks_tiles. Qed.
+Theorem C10_tiling_sum : forall plen, fold_right (fun bl acc => snd bl + acc) 0 (left_blocks plen) = plen /\
+                                      Forall (fun bl => 0 < snd bl <= 16384) (left_blocks plen).
+Proof. intros plen. destruct (tiles_sum _ _ _ (left_blocks_tiles plen)) as [A B]. split; [lia | exact B]. Qed.
+
+(* a new assignment: the requests written name that piece and are the first (at most two) blocks of the
+   tiling; asked ++ not-yet-asked is the tiling *)
+Theorem C10_assignment : forall cf int i plen r a, new_piece_request cf int i plen = (r, a) ->
+  rx_index r = i /\ rx_requested r ++ rx_left r = left_blocks plen /\
+  requests_in a = map (fun bl => (i, fst bl, snd bl)) (rx_requested r) /\ (length (rx_requested r) <= 2)%nat.
+Proof. exact new_piece_request_spec. Qed.
+
+(* every further request is exactly the next block not yet asked for *)
+Theorem C10_next : forall r r' a, send_request r = (r', a) ->
+  match rx_left r with
+  | [] => r' = r /\ a = []
+  | (b, l) :: rest => a = [ASend (Request (rx_index r) b l)] /\ rx_left r' = rest /\
+                      rx_requested r' = rx_requested r ++ [(b, l)] /\ rx_index r' = rx_index r /\ rx_hash r' = rx_hash r
+                      /\ rx_buff r' = rx_buff r
+  end.
+Proof. exact send_request_spec. Qed.
+
+(* the progress rule (an accepted block is followed by exactly one further request while blocks remain; the piece
+   completes exactly when the last outstanding block arrives) is decided on the real task by the correspondence
+   oracle step10; no Coq theorem over handle_piece histories yet *)
+Example C10_nonvacuous : left_blocks 40000 = [(0, 16384); (16384, 16384); (32768, 7232)] /\ left_blocks 16384 = [(0, 16384)].
+Proof. vm_compute. split; reflexivity. Qed.
+
+Print Assumptions C10_tiling.
+Print Assumptions C10_tiling_sum.
+Print Assumptions C10_assignment.
+Print Assumptions C10_next.
